@@ -506,3 +506,21 @@ func Recover(f func() string) (res string) {
 	}()
 	return f()
 }
+
+// ModelDedup runs each distinct line once and fans the outputs back out.
+func (c *Ctx) ModelDedup(lines []string) []string {
+	idx := map[string]int{}
+	var uniq []string
+	for _, l := range lines {
+		if _, ok := idx[l]; !ok {
+			idx[l] = len(uniq)
+			uniq = append(uniq, l)
+		}
+	}
+	outs := c.Model(uniq)
+	res := make([]string, len(lines))
+	for i, l := range lines {
+		res[i] = outs[idx[l]]
+	}
+	return res
+}
